@@ -821,6 +821,53 @@ def chainEventsS (ignore : Bool) : List Op → List (Ev Val) → List (Ev Val)
   | [], evs => cutTerminal ignore evs
   | op :: ops, evs => chainEventsS ignore ops (opEvents ignore op op.s0 (skipNT ignore evs))
 
+/-- the (normalised) results of the calls of one operator, record by record (`semCall`, the function's
+state threaded), up to the first error — a failing read of the source or a failing call -/
+def callOuts (op : Op) : Nat → List (Ev Val) → List (Ev (List Val))
+  | _, [] => []
+  | _, .error e :: _ => [.error e]
+  | s, .ok r :: rest =>
+    match semCall op s r with
+    | (.ok v, s') => .ok (normOuts op v) :: callOuts op s' rest
+    | (.error e, _) => [.error e]
+
+/-- a tuple of `nc` columns (`list` / `tuple`) of exactly `r` rows each -/
+def fullColsB (nc r : Nat) (cols : List Val) : Bool :=
+  cols.length == nc &&
+  cols.all fun c => match c with
+    | .list xs => xs.length == r
+    | .tuple xs => xs.length == r
+    | _ => false
+
+/-- the number of rows of the first column -/
+def rowsOfCols (cols : List Val) : Nat := (asCol (cols.headD .none)).rows.length
+
+/-- Boolean form of `AlignedCalls` (`Lemmas/PipeAligned.lean`): every call result has exactly `t` rows,
+the last of a stream that ends normally `1..t`; the error the stream breaks off with ends the run -/
+def alignedCallsB (ignore : Bool) (t nc : Nat) : List (Ev (List Val)) → Bool
+  | [] => true
+  | .error e :: _ => terminal ignore e
+  | [.ok cols] => decide (0 < rowsOfCols cols) && decide (rowsOfCols cols ≤ t) && fullColsB nc (rowsOfCols cols) cols
+  | .ok cols :: y :: ys => fullColsB nc t cols && alignedCallsB ignore t nc (y :: ys)
+
+/-- `SelfAlone` (`Lemmas/Pipe.lean`) as a Boolean -/
+def selfAloneB (op : Op) : Bool :=
+  match op.outKeys with
+  | k :: _ :: _ => !k.isSelf
+  | _ => true
+
+/-- Boolean form of `AssignAlignedOK` -/
+def assignAlignedOKB (ignore : Bool) (op : Op) (src : List (Ev Val)) : Bool :=
+  op.kind == .assign && op.fnBatch == 0 && decide (0 < op.batch) && decide (0 < op.outKeys.length) &&
+  selfAloneB op && alignedCallsB ignore op.batch op.outKeys.length (callOuts op op.s0 (skipNT ignore src))
+
+/-- Boolean form of `RunOKA` up to `OpOK.pred` (a predicate never returns a tuple: not decidable) -/
+def runOKAB (ignore : Bool) : List Op → List (Ev Val) → Bool
+  | [], _ => true
+  | op :: ops, evs =>
+    ((op.fnBatch == 0 && op.batch == 0 && selfAloneB op) || assignAlignedOKB ignore op evs) &&
+    runOKAB ignore ops (opEvents ignore op op.s0 (skipNT ignore evs))
+
 /-- the four steps up to the regrouped output columns -/
 def batchedCols (ignore : Bool) (op : Op) (s : Nat) (src : List (Ev Val)) :
     List (List Val) × Option Err :=
